@@ -524,15 +524,21 @@ def check_phase(w, phase, plans, out):
             w.probes["hdf5_exports_checked"] += 1
 
 
-def stat_calculator(seq_seed, n, shape_kind):
-    """Streaming statistics over a generated value sequence."""
+def stat_calculator(seq_seed, n, shape_kind, reuse_buffer=False):
+    """Streaming statistics over a generated value sequence.  reuse_buffer: the producer streams every value through
+    one preallocated array (the calculator must not keep a reference to what it was handed)."""
     from nifty.cl.probing import StatCalculator
     rng = np.random.default_rng(seq_seed)
     shp = {0: (), 1: (4,), 2: (2, 3)}[shape_kind]
     vals = [rng.normal(size=shp) * 10.0 ** rng.integers(-2, 3) + rng.integers(-3, 4) for _ in range(n)]
     sc = StatCalculator()
+    buf = np.empty(shp) if (reuse_buffer and shp != ()) else None
     for v in vals:
-        sc.add(v)
+        if buf is not None:
+            buf[...] = v
+            sc.add(buf)
+        else:
+            sc.add(v)
     if not close({"": sc.mean}, {"": np.mean(vals, axis=0)}, 1e-11):
         raise Violation({"oracle": "statcalc-mean"}, f"n={n}")
     if n >= 2:
@@ -606,7 +612,8 @@ def strategies():
     phase = st.fixed_dictionaries({"n": st.integers(1, 4), "sched": st.integers(0, 2**20),
                                    "sem": st.integers(0, 2**20),
                                    "subops": st.lists(subop, min_size=1, max_size=3)})
-    statc = st.fixed_dictionaries({"statcalc": st.tuples(st.integers(0, 10**6), st.integers(1, 12), st.integers(0, 2))})
+    statc = st.fixed_dictionaries({"statcalc": st.tuples(st.integers(0, 10**6), st.integers(1, 12), st.integers(0, 2),
+                                                         st.booleans())})
     return st.lists(st.one_of(phase, phase, phase, phase, statc), min_size=1, max_size=6)
 
 
